@@ -14,6 +14,14 @@ def compare_case(ctx, m, sess, lmq, model_exe, queries, types, stats, check_mode
     mres = lc.run_model(model_exe, m, queries) if check_model else None
     closed = m.suffix_closed()
     unk = -100 * lc.UNIT
+    if check_model:
+        # the loader models' tables must satisfy the hypotheses (TInv) of the query theorems: evaluated with the
+        # extracted, proved-sound checker LM/InvCheck.tinv_check
+        stats["inv_checked"] = stats.get("inv_checked", 0) + 1
+        for tok in mres["loaded"].split():
+            if tok in ("invP=0", "invT=0"):
+                problems.append(("correspondence:loader-invariant:" + tok[3], "the table built by the %s loader model violates TInv (theorem hypotheses not established for this file)" % ("probing" if tok[3] == "P" else "trie"),
+                                 {"arpa": m.arpa_bytes().decode("latin-1"), "model": mres["loaded"]}, False))
     replay_base = {"arpa": m.arpa_bytes().decode("latin-1"), "vocab": m.vocab_bytes().decode("latin-1")}
     for typ in types:
         r = sess.run_impl(lmq, typ, queries)
